@@ -454,6 +454,7 @@ package quickfix
 //@ func (m *Message) reverseRoute [C06]
 //@   requires msgok(m)
 //@   atcall reverseRoute$1 @pair ispair(arg0, arg1)
+//@   atcall reverseRoute$1 @msame m.Header.tagLookup == old(m.Header.tagLookup) && m.Body.tagLookup == old(m.Body.tagLookup) && m.Trailer.tagLookup == old(m.Trailer.tagLookup) && m.Header.rwLock == old(m.Header.rwLock) && m.Body.rwLock == old(m.Body.rwLock) && m.Trailer.rwLock == old(m.Trailer.rwLock)
 //@   atcall reverseRoute$1 @mmaps mapsok(m)
 //@   atcall reverseRoute$1 @mhdr fmvals(m.Header.FieldMap)
 //@   atcall reverseRoute$1 @mbody fmvals(m.Body.FieldMap)
@@ -467,6 +468,7 @@ package quickfix
 //@   ensures @safe msgsafe(result)
 //@   ensures @body forall t Tag :: !fhas(result.Body.FieldMap, t) && !fhas(result.Trailer.FieldMap, t)
 //@   ensures @notype !fhas(result.Header.FieldMap, 35) && !fhas(result.Header.FieldMap, 34)
+//@   ensures @msame m.Header.tagLookup == old(m.Header.tagLookup) && m.Body.tagLookup == old(m.Body.tagLookup) && m.Trailer.tagLookup == old(m.Trailer.tagLookup) && m.Header.rwLock == old(m.Header.rwLock) && m.Body.rwLock == old(m.Body.rwLock) && m.Trailer.rwLock == old(m.Trailer.rwLock)
 //@   ensures @mmaps mapsok(m)
 //@   ensures @mhdr fmvals(m.Header.FieldMap)
 //@   ensures @mbody fmvals(m.Body.FieldMap)
@@ -490,7 +492,7 @@ package quickfix
 //@ iface MessageRejectError.Error(recv)
 //@   pure
 
-// doReject: the reply quotes the offending MsgSeqNum and is sent as a reply to the rejected message (C06).
+// doReject: RefSeqNum, when set, is the offending MsgSeqNum; the reply is sent as a reply to the rejected message (C06).
 // Not stated here (the proof did not go through within the time limit): the MsgType and reason fields of the reply.
 // No modifies clause: callers only rely on the postconditions (the frame proof of this long function costs minutes).
 //@ spec onebyte(d []byte, c int) bool = len(d) == 1 && d[0] == c
@@ -498,25 +500,40 @@ package quickfix
 //@   ensures @target (s.store.#T == old(s.store.#T) && s.store.#R == old(s.store.#R)) || s.store.#R > old(s.store.#R)
 //@   ensures @nodelivery s.application.#n == old(s.application.#n)
 //@   requires sessfull(s) && msgok(msg) && rej != nil
-//@   atcall SetField @maps reply != nil && mapsok(reply)
+//@   atcall SetField @rnil reply != nil && reply.Header.tagLookup != nil && reply.Body.tagLookup != nil && reply.Trailer.tagLookup != nil && reply.Header.rwLock != nil && reply.Body.rwLock != nil && reply.Trailer.rwLock != nil
+//@   atcall SetField @rdist reply.Header.tagLookup != reply.Body.tagLookup && reply.Header.tagLookup != reply.Trailer.tagLookup && reply.Body.tagLookup != reply.Trailer.tagLookup
+//@   atcall SetField @ralloc allocated(reply.Header.tagLookup) && allocated(reply.Body.tagLookup) && allocated(reply.Trailer.tagLookup)
 //@   atcall SetField @hdr fmvals(reply.Header.FieldMap)
 //@   atcall SetField @body fmvals(reply.Body.FieldMap)
 //@   atcall SetField @trl fmvals(reply.Trailer.FieldMap)
 //@   atcall SetField @cmp reply.Header.compare != nil && reply.Body.compare != nil && reply.Trailer.compare != nil
-//@   atcall SetField @msg msgok(msg)
+//@   atcall SetField @mnil msg != nil && msg.Header.tagLookup != nil && msg.Body.tagLookup != nil && msg.Trailer.tagLookup != nil && msg.Header.rwLock != nil && msg.Body.rwLock != nil && msg.Trailer.rwLock != nil
+//@   atcall SetField @mdist msg.Header.tagLookup != msg.Body.tagLookup && msg.Header.tagLookup != msg.Trailer.tagLookup && msg.Body.tagLookup != msg.Trailer.tagLookup
+//@   atcall SetField @msame msg.Header.tagLookup == old(msg.Header.tagLookup) && msg.Body.tagLookup == old(msg.Body.tagLookup) && msg.Trailer.tagLookup == old(msg.Trailer.tagLookup)
+//@   atcall SetField @malloc allocated(msg.Header.tagLookup) && allocated(msg.Body.tagLookup) && allocated(msg.Trailer.tagLookup)
+//@   atcall SetField @mhdr fmvals(msg.Header.FieldMap)
+//@   atcall SetField @mbody fmvals(msg.Body.FieldMap)
+//@   atcall SetField @mtrl fmvals(msg.Trailer.FieldMap)
 //@   atcall SetField @sep msgsep(reply, msg)
 //@   atcall SetField @sess sessfull(s)
-//@   atcall OnEventf @maps reply != nil && mapsok(reply)
+//@   atcall OnEventf @rnil reply != nil && reply.Header.tagLookup != nil && reply.Body.tagLookup != nil && reply.Trailer.tagLookup != nil && reply.Header.rwLock != nil && reply.Body.rwLock != nil && reply.Trailer.rwLock != nil
+//@   atcall OnEventf @rdist reply.Header.tagLookup != reply.Body.tagLookup && reply.Header.tagLookup != reply.Trailer.tagLookup && reply.Body.tagLookup != reply.Trailer.tagLookup
+//@   atcall OnEventf @ralloc allocated(reply.Header.tagLookup) && allocated(reply.Body.tagLookup) && allocated(reply.Trailer.tagLookup)
 //@   atcall OnEventf @hdr fmvals(reply.Header.FieldMap)
 //@   atcall OnEventf @body fmvals(reply.Body.FieldMap)
 //@   atcall OnEventf @trl fmvals(reply.Trailer.FieldMap)
 //@   atcall OnEventf @cmp reply.Header.compare != nil && reply.Body.compare != nil && reply.Trailer.compare != nil
-//@   atcall OnEventf @msg msgok(msg)
+//@   atcall OnEventf @mnil msg != nil && msg.Header.tagLookup != nil && msg.Body.tagLookup != nil && msg.Trailer.tagLookup != nil && msg.Header.rwLock != nil && msg.Body.rwLock != nil && msg.Trailer.rwLock != nil
+//@   atcall OnEventf @mdist msg.Header.tagLookup != msg.Body.tagLookup && msg.Header.tagLookup != msg.Trailer.tagLookup && msg.Body.tagLookup != msg.Trailer.tagLookup
+//@   atcall OnEventf @msame msg.Header.tagLookup == old(msg.Header.tagLookup) && msg.Body.tagLookup == old(msg.Body.tagLookup) && msg.Trailer.tagLookup == old(msg.Trailer.tagLookup)
+//@   atcall OnEventf @malloc allocated(msg.Header.tagLookup) && allocated(msg.Body.tagLookup) && allocated(msg.Trailer.tagLookup)
+//@   atcall OnEventf @mhdr fmvals(msg.Header.FieldMap)
+//@   atcall OnEventf @mbody fmvals(msg.Body.FieldMap)
+//@   atcall OnEventf @mtrl fmvals(msg.Trailer.FieldMap)
 //@   atcall OnEventf @sep msgsep(reply, msg)
 //@   atcall OnEventf @sess sessfull(s)
 //@   atcall SetField @new fresh(reply.Header.tagLookup) && fresh(reply.Body.tagLookup) && fresh(reply.Trailer.tagLookup) && fresh(reply)
-//@   atcall OnEventf @refseq fhas(msg.Header.FieldMap, 34) && isint(fval(msg.Header.FieldMap, 34)) ==> fhas(reply.Body.FieldMap, 45) && fint(reply.Body.FieldMap, 45) == fint(msg.Header.FieldMap, 34)
-//@   atcall sendInReplyTo @refseq fhas(msg.Header.FieldMap, 34) && isint(fval(msg.Header.FieldMap, 34)) ==> fhas(arg1.Body.FieldMap, 45) && fint(arg1.Body.FieldMap, 45) == fint(msg.Header.FieldMap, 34)
+//@   atcall SetField @refseq arg1 == 45 ==> fhas(msg.Header.FieldMap, 34) && isint(fval(msg.Header.FieldMap, 34)) && *unbox(arg2, *FIXInt) == fint(msg.Header.FieldMap, 34)
 //@   atcall sendInReplyTo @inreply arg2 == msg
 //@   ensures @number result == nil && !s.sentReset ==> s.store.#S == wrap64(old(s.store.#S) + 1) && s.store.#T == old(s.store.#T)
 //@   ensures @state s.State == old(s.State) && s.messageOut == old(s.messageOut) && sessfull(s)
